@@ -33,8 +33,9 @@ class Clause:
 
 # ---------------------------------------------------------------- numeric evaluation at random points
 class RandEnv(T.EvalEnv):
-    def __init__(self, seed, F, dims=None):
+    def __init__(self, seed, F, dims=None, grid=False):
         T.EvalEnv.__init__(self)
+        self.grid = grid          # values from a small integer grid: exact ties and coincidences become frequent
         self.rng = random.Random(seed)
         self.F = F
         self.memo = {}
@@ -55,6 +56,8 @@ class RandEnv(T.EvalEnv):
                 v = self.rng.choice([2, 3])
             elif name.startswith("B_"):
                 raise KeyError("partition symbol")
+            elif self.grid and name not in F.dims:
+                v = float(self.rng.choice([1, 2] if name in F.pos_syms else ([0, 1, 2] if name in F.nonneg_syms else [-1, 0, 1, 2])))
             elif name in F.pos_syms:
                 v = self.rng.uniform(0.3, 2.0)
             elif name in F.nonneg_syms:
@@ -71,7 +74,9 @@ class RandEnv(T.EvalEnv):
             if name in getattr(F, "samplers", {}):
                 v = self.memo[key] = F.samplers[name](args, self)
                 return v
-            if name in F.pos_apps:
+            if self.grid and not isint and name not in getattr(F, "int_apps", {}):
+                v = float(self.rng.choice([1, 2] if name in F.pos_apps else ([0, 1, 2] if name in F.nonneg_apps else [-1, 0, 1, 2])))
+            elif name in F.pos_apps:
                 v = self.rng.randint(1, 3) if isint else self.rng.uniform(0.3, 2.0)
             elif name in F.nonneg_apps:
                 v = self.rng.randrange(3) if isint else (0.0 if self.rng.random() < 0.25 else self.rng.uniform(0.0, 2.0))
@@ -91,8 +96,9 @@ def numeric_differs(a, b, F, trials=8, seed=0):
     a, b = P(a), P(b)
     free = sorted((a.syms | b.syms))
     same, why = 0, None
-    for t in range(trials):
-        env = RandEnv(seed * 1000 + t, F)
+    for t in range(trials + 6):
+        # the last six trials draw every real quantity from a small integer grid (ties between distances, equal counts, ...)
+        env = RandEnv(seed * 1000 + t, F, grid=(t >= trials))
         # free index symbols take small in-range values
         for n in free:
             if "#" in n and n not in env.memo:
@@ -287,6 +293,31 @@ def compare_terms(g, e, F, name, out, hyps=(), t0=None):
 _fresh_re = re.compile(r"#\d+")
 
 
+def force_value(value, depth=0, seen=None):
+    """evaluate the generic element of every array reachable from `value` (arrays are lazy: their element functions --
+    and the definedness side conditions of the divisions / logs / indexings inside them -- only run when forced)"""
+    seen = seen if seen is not None else set()
+    if id(value) in seen or depth > 6:
+        return
+    seen.add(id(value))
+    try:
+        if isinstance(value, Arr):
+            value.fn(*[T.fresh("q") for _ in value.shape])
+        elif isinstance(value, Obj):
+            for v in list(value.fields.values()):
+                force_value(v, depth + 1, seen)
+        elif isinstance(value, (list, tuple)):
+            for v in value:
+                force_value(v, depth + 1, seen)
+        elif isinstance(value, dict):
+            for v in value.values():
+                force_value(v, depth + 1, seen)
+        elif hasattr(value, "elem") and hasattr(value, "slen") and getattr(value, "filt", None) is None:
+            force_value(value.elem(T.fresh("q")), depth + 1, seen)
+    except (ModelError, ShapeError, PyRaise):
+        pass          # reported where the value is compared
+
+
 def structural_defs(value, acc=None, guards=(), depth=0):
     """definedness conditions readable off a final term, path-sensitively:
     def(ite(c,a,b)) = c ? def(a) : def(b)   (DESIGN §2.4).
@@ -353,6 +384,32 @@ def _norm_key(p):
     return _fresh_re.sub("#", repr(p))
 
 
+def confirm_side(kind, what, F, hyps, seed=0):
+    """a solver model of a definedness condition lives in the ABSTRACTION (Σ, inverse, log atoms are free variables there):
+    it is a refutation only if a concrete point that satisfies the hypotheses makes the operand 0 (or <= 0 for 'pos').
+    returns a witness dict or None"""
+    if kind not in ("pos", "nonzero"):
+        return {"note": "integer-linear condition"}
+    p = P(what)
+    free = sorted(p.syms)
+    for t in range(40):
+        env = RandEnv(seed * 977 + t, F, grid=(t % 2 == 1))
+        for n in free:
+            if "#" in n and n not in env.memo:
+                env.syms[n] = t % 2
+        try:
+            if not all(T.evalf(C(h), env) for h in hyps):
+                continue
+            v = T.evalf(p, env)
+        except (ZeroDivisionError, OverflowError, ValueError, KeyError, TypeError):
+            continue
+        if v != v:
+            continue
+        if (kind == "nonzero" and v == 0) or (kind == "pos" and v <= 0):
+            return {"operand_value": v, "point": {k[1] + (str(list(k[2])) if k[2] else ""): val for k, val in list(env.memo.items())[:30]}}
+    return None
+
+
 def check_sides(sidelog, F, prefix, out, extra_hyps=(), final_values=None):
     """discharge definedness side conditions emitted while the body ran.  A
     division/log recorded at operation time whose operand is still visible in
@@ -377,9 +434,14 @@ def check_sides(sidelog, F, prefix, out, extra_hyps=(), final_values=None):
                 nm = "%s.def.%s@result" % (prefix, kind)
                 desc = "%s must be %s%s" % (T.show(poly, 300), {"pos": "> 0", "nonzero": "!= 0"}[kind],
                                           (" when " + " and ".join(repr(g) for g in guards)) if guards else "")
+                wit = None
+                if st == "refuted":
+                    wit = confirm_side(kind, poly, F, list(guards) + list(extra_hyps))
+                    if wit is None:
+                        st = "unknown"          # only a model of the abstraction: not a refutation
                 status = "discharged" if st == "proved" else ("refuted" if st == "refuted" else "undecided")
                 out.append(Clause(nm, status, info.get("backend", ""), desc,
-                                  witness=({"model": info.get("model"), "names": info.get("names")} if st == "refuted" else None),
+                                  witness=({"model": info.get("model"), "names": info.get("names"), "concrete": wit} if st == "refuted" else None),
                                   secs=time.time() - t0))
     for kind, what, why, loc, assumed in sidelog.items:
         if final_values is not None and kind in ("pos", "nonzero") and (kind, _norm_key(P(what))) in guarded:
@@ -422,8 +484,9 @@ def check_sides(sidelog, F, prefix, out, extra_hyps=(), final_values=None):
                                       {"pos": "> 0", "nonzero": "!= 0", "range": "in range"}[kind])
         if st == "proved":
             out.append(Clause(nm, "discharged", info["backend"], desc, secs=time.time() - t0))
-        elif st == "refuted":
-            out.append(Clause(nm, "refuted", info["backend"], desc, witness={"model": info.get("model"), "names": info.get("names")},
+        elif st == "refuted" and (confirm_side(kind, what, F, hyps) is not None):
+            out.append(Clause(nm, "refuted", info["backend"] + "+eval", desc, witness={"model": info.get("model"), "names": info.get("names"),
+                                                                                     "concrete": confirm_side(kind, what, F, hyps)},
                               secs=time.time() - t0))
         else:
             out.append(Clause(nm, "undecided", info.get("backend", ""), desc, secs=time.time() - t0))
